@@ -38,6 +38,14 @@ func c16Polluters() []c16Prog {
 	add("空-method", "以空（写入：“a”、1）\n")
 	add("真-method", "以真（自增：1）\n")
 	add("lib-ctor", "导入《@样品库》\n如何新建样品？\n\t输入甲\n\t其计数 = 1000\n输出（新建样品：1）之计数\n")
+	// the same through aliases: a local name bound to the library's type, the constructor declared
+	// where the alias is already visible (a method body, a branch, a loop)
+	add("lib-ctor-alias-in-method", "导入《@样品库》\n令型 = 样品\n如何改？\n\t如何新建型？\n\t\t输入甲\n\t\t其计数 = 2000\n\t输出 1\n（改）\n输出（新建样品：1）之计数\n")
+	add("lib-ctor-alias-in-branch", "导入《@样品库》\n令型 = 样品\n如果 真：\n\t如何新建型？\n\t\t输入甲\n\t\t其计数 = 3000\n输出（新建样品：1）之计数\n")
+	add("lib-ctor-alias-toplevel", "导入《@样品库》\n令型 = 样品\n如何新建型？\n\t输入甲\n\t其计数 = 4000\n输出（新建样品：1）之计数\n")
+	add("lib-ctor-alias-param", "导入《@样品库》\n如何改？\n\t输入型\n\t如何新建型？\n\t\t输入甲\n\t\t其计数 = 5000\n\t输出 1\n（改：样品）\n输出（新建样品：1）之计数\n")
+	add("lib-ctor-alias-list", "导入《@样品库》\n令表 = 【样品】\n以型遍历表：\n\t如何新建型？\n\t\t输入甲\n\t\t其计数 = 6000\n输出（新建样品：1）之计数\n")
+	add("lib-method-alias", "导入《@样品库》\n令型 = 样品\n定义型：\n\t其计数 = 7000\n输出（新建样品）之计数\n")
 	add("lib-instance-mutation", "导入《@样品库》\n令物 =（新建样品）\n以物之清单（后增：9）\n物之表#“乙” = 2\n以物（累加）\n以物（累加）\n输出物之清单\n")
 	add("lib-type-property-write", "导入《@样品库》\n样品之清单 = 【】\n")
 	add("lib-function-redefine", "导入《@样品库》\n如何取常数？\n\t输出 -1\n输出（取常数）\n")
